@@ -105,9 +105,11 @@ Section Trig.
                end) (map_to_list (w_infos w)).
 
   Definition climbs_above_root (k : key) (t : str) : bool :=
-    (* a relative target with more leading ".." than the link's directory is deep *)
+    (* a relative target with more leading ".." than the link's directory is deep
+       below the root of the base view (the prefix directory, if there is one) *)
     negb (is_abs t) &&
-    Nat.ltb (length k - 1) (length (List.filter (fun c => str_eqb c s_dotdot) (comps t))).
+    Nat.ltb (length k - length (match c_prefix cfg with Some p => comps p | None => [] end) - 1)
+            (length (List.filter (fun c => str_eqb c s_dotdot) (comps t))).
 
   Definition link_flags (w : world) : list trigger :=
     let links := List.filter (fun kv => match snd kv with Link _ _ => true | _ => false end) (dump_fs w) in
